@@ -299,6 +299,7 @@ def gen_case(rng, directed=None):
     else:
         n = int(np.ceil(1 + (np.log10(dmax) - np.log10(dmin)) / step))
         grid = [float(x) for x in np.logspace(np.log10(dmin), np.log10(dmax), n)]
+        grid[0], grid[-1] = float(dmin), float(dmax)      # the code pins the two ends of the grid
     n_data_min = min(ne, directed.get('n_data_min', rng.choice([1, 2, 2, 3])))
     nsrc = directed.get('nsrc', rng.randint(1, 3))
     sources = []
@@ -689,15 +690,18 @@ def run_case(case):
         try:
             real = run_real(case, d)
         except TooSmall as e:
-            if not on_knot_kind:
+            # the first trial distance is dmin itself: a refusal is a margin case only when the float product
+            # arcsec x pc of some entry really rounds below the smallest aperture
+            ref_below = any(en['theta'] * (case['dmin'] * 1000.) < case['aps'][0] for en in case['entries'])
+            if not (on_knot_kind and ref_below):
                 return CaseResult(False, violates=E2E3_VERDICT, key=key,
-                                  detail='Fitter(...) raised "%s" although theta*dmin >= 1.001 x the smallest aperture (%s)' % (e, describe(case)))
+                                  detail='Fitter(...) raised "%s" although theta*dmin is not below the smallest aperture (%s)' % (e, describe(case)))
         except Exception as e:      # noqa: BLE001
             import traceback
             return CaseResult(False, violates=E2E3_VERDICT, key=key,
                               detail='the pipeline raised on an in-domain input: %r (%s)\n%s' % (e, describe(case), traceback.format_exc()[-1500:]))
         if real is None:
-            # theta*dmin sits on the smallest aperture: 10**log10(dmin) may round below it
+            # theta*dmin sits on the smallest aperture and the float product rounds below it
             return CaseResult(True, branches=['theta_dmin_on_knot'], key=key, nontrivial=True, relaxed=1)
         try:
             mod = ask_model(case, real)
